@@ -127,6 +127,7 @@ pub fn run_arm_fixed(opc: u8, fuel: usize, dst_fixed: Option<u8>, src_fixed: Opt
         stack: SRegion { base: kani::any(), len: kani::any() },
         allowed: None,
     };
+    if crate::WITNESS_MODE { kani::assume(small_world_regions((lay.mem.base, lay.mem.len), (lay.mbuff.base, lay.mbuff.len), (lay.stack.base, lay.stack.len))); }
     let hret: u64 = kani::any();
     let pre = SState { reg, pc, depth: 0, frames: default_frames() };
     let oracle = SOracle { load_data: st.load_data, helper_present: helper.is_some(), helper_ret: hret, entry_usage: None, next_imm: next.imm };
